@@ -245,6 +245,7 @@ def make_pool(rng: PlanRng):
             pool[f"x{k}a"] = sig(rng.uniform(0.5, 3.0, k))
             pool[f"x{k}b"] = sig(rng.uniform(0.5, 3.0, k))
             pool[f"U{k}"] = sig(rng.uniform(0.05, 0.95, (5, k)))
+            pool[f"Eps{k}"] = sig(rng.uniform(0.01, 1.0, (n_rec, k)))
             pool[f"xbad{k}"] = sig(rng.uniform(0.5, 3.0, k + 1))
             pool[f"X{k}"] = sig(rng.uniform(0.0, 6.0, (6, k)))
             if k >= 2:
@@ -256,11 +257,17 @@ def make_pool(rng: PlanRng):
         pool[f"X3{k}"] = sig(rng.uniform(0.0, 4.0, (2, n_rec, k)))
         pool[f"X4{k}"] = sig(rng.uniform(0.0, 4.0, (2, 1, 3, k)))
     meta["ks"] = ks
+    # an adaptation state in "bright" units (captures ~1e11, K ~1e-11): same structure as
+    # Km / Kv0, tiny absolute magnitude
+    pool["Kms"] = sig(np.asarray(pool["Km"]) * 1e-11)
+    pool["Kvs"] = sig(np.asarray(pool["Kv0"]) * 1e-11)
     return pool, meta
 
 
 def random_mutator(rng, sym, meta, allow_reject=False):
     op = c14.random_mutator(rng, sym, meta, allow_reject=allow_reject)
+    if op["m"] == "register_adaptation" and rng.coin(0.2):
+        op["K"] = rng.choice(["Kms", "Kvs"])
     if meta["kind"] != "step" and not op.get("reject"):
         if op["m"] == "register_system" and op.get("domain") == "FD" and rng.coin(0.5):
             k = meta["n_src"]["SF1"]
@@ -321,7 +328,7 @@ def generate(rs, mode, tier, index):
         ctor = {"w": rng.choice([None, None, "w1"])}
         if rng.coin(0.35):
             if rng.coin(0.6):
-                ctor["K"] = rng.choice(["Ks", "Kv0", "Km"])
+                ctor["K"] = rng.choice(["Ks", "Kv0", "Km", "Kms"])
             if rng.coin(0.6):
                 ctor["baseline"] = rng.choice(["bs", "bv0", "bvz"])
             if rng.coin(0.6):
@@ -432,7 +439,9 @@ def execute(plan):
             raise Violation(ID, "observable_raised",
                             f"{name} raised {got.brief()} {where}; the model's value is defined",
                             query=name, where=where, exc=got.value, **detail)
-        ok, d, why = compare(np.asarray(got.value), np.asarray(want), RTOL, ATOL)
+        wa = np.asarray(want, float)
+        mag = float(np.max(np.abs(wa))) if wa.size else 0.0
+        ok, d, why = compare(np.asarray(got.value), wa, RTOL, ATOL * min(1.0, mag))
         if not ok:
             raise Violation(ID, "differs_from_model",
                             f"{name} {where}: {why} (estimator vs. spec model)",
